@@ -97,8 +97,37 @@ func (p pools) rule(r *h.Rand, measKey string, neqP float64, emptyP float64) str
 	return op + ":" + h.Hex(k) + ":" + h.Hex(v)
 }
 
+// regexLeaf: key =~ /^(?:v1|v2|..)$/ over 2-3 values of one key (or measurement names)
+func (p pools) regexLeaf(r *h.Rand, measKey string, negP float64) string {
+	op := "R"
+	if r.Chance(negP) {
+		op = "NR"
+	}
+	key := h.Pick(r, p.keys)
+	from := p.vals[string(key)]
+	if measKey != "" && r.Chance(0.2) {
+		key, from = []byte(measKey), p.names
+	}
+	var vs []string
+	for _, v := range from {
+		if r.Chance(0.7) {
+			vs = append(vs, h.Hex(v))
+		}
+	}
+	if len(vs) == 0 {
+		vs = append(vs, h.Hex(from[0]))
+	}
+	if r.Chance(0.1) {
+		vs = append(vs, h.HexS("nope"))
+	}
+	return op + ":" + h.Hex(key) + ":" + strings.Join(vs, "+")
+}
+
 func (p pools) tree(r *h.Rand, depth int, measKey string, neqP, emptyP float64) []string {
 	if depth == 0 || r.Chance(0.45) {
+		if measKey == "_name" && r.Chance(0.3) { // MeasurementNames conditions only
+			return []string{p.regexLeaf(r, measKey, neqP/2)}
+		}
 		return []string{p.rule(r, measKey, neqP, emptyP)}
 	}
 	op := "A"
@@ -190,6 +219,58 @@ func (p pools) query(r *h.Rand, nsh int) string {
 	}
 }
 
+// shaped: a measurement whose lowest matching tag value is used only by series the authorizer
+// hides while a later matching value has a visible series (maybe in another shard), queried with
+// regular expressions under that authorizer (the shape seeded change C42-a needs).
+func shaped(r *h.Rand, p pools, nsh int) []string {
+	if len(p.keys) < 2 {
+		return nil
+	}
+	key, secret := p.keys[0], p.keys[1]
+	vals := append([][]byte(nil), p.vals[string(key)]...)
+	sort.Slice(vals, func(i, j int) bool { return string(vals[i]) < string(vals[j]) })
+	sv := p.vals[string(secret)][0]
+	tags := func(kv ...[]byte) string { // sorted by key
+		type t struct{ k, v []byte }
+		var ts []t
+		for i := 0; i+1 < len(kv); i += 2 {
+			ts = append(ts, t{kv[i], kv[i+1]})
+		}
+		sort.Slice(ts, func(i, j int) bool { return string(ts[i].k) < string(ts[j].k) })
+		var out []string
+		for _, x := range ts {
+			out = append(out, h.Hex(x.k)+":"+h.Hex(x.v))
+		}
+		return strings.Join(out, ",")
+	}
+	var ops []string
+	for i, m := range p.names {
+		switch i % 3 {
+		case 0: // first value hidden, later value visible
+			ops = append(ops, fmt.Sprintf("w %d %s %s %s", 1+r.Intn(nsh), h.Hex(m), tags(key, vals[0], secret, sv), genPts(r)))
+			ops = append(ops, fmt.Sprintf("w %d %s %s %s", 1+r.Intn(nsh), h.Hex(m), tags(key, vals[len(vals)-1]), genPts(r)))
+		case 1: // matches only through hidden series
+			ops = append(ops, fmt.Sprintf("w %d %s %s %s", 1+r.Intn(nsh), h.Hex(m), tags(key, vals[0], secret, sv), genPts(r)))
+			ops = append(ops, fmt.Sprintf("w %d %s %s %s", 1+r.Intn(nsh), h.Hex(m), tags(secret, p.vals[string(secret)][len(p.vals[string(secret)])-1]), genPts(r)))
+		default: // plainly visible
+			ops = append(ops, fmt.Sprintf("w %d %s %s %s", 1+r.Intn(nsh), h.Hex(m), tags(key, vals[0]), genPts(r)))
+		}
+	}
+	auth := "T:" + h.Hex(secret) + ":" + h.Hex(sv)
+	var hv []string
+	for _, v := range vals {
+		hv = append(hv, h.Hex(v))
+	}
+	re := "R:" + h.Hex(key) + ":" + strings.Join(hv, "+")
+	ops = append(ops, "mn "+auth+" "+re, "mn - "+re, "mn open "+re,
+		"mn "+auth+" O,"+re+",E:"+h.HexS("_name")+":"+h.HexS("nope"),
+		"mn "+auth+" A,"+re+",N:"+h.HexS("_name")+":"+h.HexS("nope"),
+		"mn "+auth+" NR:"+h.Hex(key)+":"+hv[0],
+		"mn "+auth+" R:"+h.Hex(key)+":"+hv[len(hv)-1],
+		"mn "+auth+" -")
+	return ops
+}
+
 func gen(r *h.Rand, tier string, emit func([]string)) {
 	ncases := 260
 	if tier == "thorough" {
@@ -206,6 +287,9 @@ func gen(r *h.Rand, tier string, emit func([]string)) {
 			if r.Chance(0.08) {
 				ops = append(ops, fmt.Sprintf("snap %d", 1+r.Intn(nsh)))
 			}
+		}
+		if c%4 == 1 {
+			ops = append(ops, shaped(r, p, nsh)...)
 		}
 		nphase := 1 + r.Intn(3)
 		for ph := 0; ph < nphase; ph++ {
